@@ -232,4 +232,113 @@ theorem encFields_head (F : List (List Char × FVal)) (hne : F ≠ []) (hF : fie
     | nil => simp only [encFields, List.append_assoc, List.cons_append] at h; exact key k _ hk h
     | cons kv2 F'' => simp only [encFields, List.append_assoc, List.cons_append] at h; exact key k _ hk h
 
+/-! ### the emitted keys are sorted -/
+
+/-- negative transitivity of the key order: if c < a then c < b or b < a -/
+theorem keyLt_negtrans : ∀ (c a b : List Char), keyLt c a = true → keyLt c b = true ∨ keyLt b a = true
+  | [], [], _, h => by simp [keyLt] at h
+  | [], _ :: _, [], _ => by right; simp [keyLt]
+  | [], _ :: _, _ :: _, _ => by left; simp [keyLt]
+  | _ :: _, [], _, h => by simp [keyLt] at h
+  | x :: xs, y :: ys, [], _ => by right; simp [keyLt]
+  | x :: xs, y :: ys, z :: zs, h => by
+    simp only [keyLt] at h ⊢
+    by_cases h1 : x.toNat < y.toNat
+    · by_cases h2 : x.toNat < z.toNat
+      · left; simp [h2]
+      · by_cases h3 : z.toNat < x.toNat
+        · right; have : z.toNat < y.toNat := by omega
+          simp [this]
+        · have hxz : x.toNat = z.toNat := by omega
+          right; have : z.toNat < y.toNat := by omega
+          simp [this]
+    · simp only [h1, if_false] at h
+      by_cases h2 : y.toNat < x.toNat
+      · simp [h2] at h
+      · simp only [h2, if_false] at h
+        have hxy : x.toNat = y.toNat := by omega
+        by_cases h3 : x.toNat < z.toNat
+        · left; simp [h3]
+        · by_cases h4 : z.toNat < x.toNat
+          · right; have : z.toNat < y.toNat := by omega
+            simp [this]
+          · have hz : z.toNat = x.toNat := by omega
+            have a1 : ¬ z.toNat < y.toNat := by omega
+            have a2 : ¬ y.toNat < z.toNat := by omega
+            have a3 : ¬ x.toNat < z.toNat := by omega
+            have a4 : ¬ z.toNat < x.toNat := by omega
+            simp only [a1, a2, a3, a4, if_false]
+            exact keyLt_negtrans xs ys zs h
+
+def KeySorted {α} (l : List (List Char × α)) : Prop := l.Pairwise (fun a b => keyLt b.1 a.1 = false)
+
+theorem le_trans_key (a b c : List Char) (h1 : keyLt b a = false) (h2 : keyLt c b = false) : keyLt c a = false := by
+  cases h : keyLt c a with
+  | false => rfl
+  | true =>
+    rcases keyLt_negtrans c a b h with h' | h'
+    · rw [h2] at h'; simp at h'
+    · rw [h1] at h'; simp at h'
+
+theorem keyLt_asymm : ∀ (a b : List Char), keyLt a b = true → keyLt b a = false
+  | [], [], h => by simp [keyLt] at h
+  | [], _ :: _, _ => by simp [keyLt]
+  | _ :: _, [], h => by simp [keyLt] at h
+  | x :: xs, y :: ys, h => by
+    simp only [keyLt] at h ⊢
+    by_cases h1 : x.toNat < y.toNat
+    · have : ¬ y.toNat < x.toNat := by omega
+      simp [this, h1]
+    · simp only [h1, if_false] at h
+      by_cases h2 : y.toNat < x.toNat
+      · simp [h2] at h
+      · simp only [h2, if_false] at h
+        simp only [h2, h1, if_false]
+        exact keyLt_asymm xs ys h
+
+theorem insertByKey_sorted {α} (x : List Char × α) : ∀ (l : List (List Char × α)), KeySorted l → KeySorted (insertByKey x l)
+  | [], _ => by simp [insertByKey, KeySorted]
+  | y :: ys, h => by
+    unfold KeySorted at h
+    rw [List.pairwise_cons] at h
+    simp only [insertByKey]
+    split
+    · rename_i hlt
+      unfold KeySorted
+      rw [List.pairwise_cons]
+      refine ⟨?_, List.pairwise_cons.mpr h⟩
+      intro b hb
+      rcases List.mem_cons.mp hb with rfl | hb'
+      · exact keyLt_asymm _ _ hlt
+      · exact le_trans_key _ _ _ (keyLt_asymm _ _ hlt) (h.1 b hb')
+    · rename_i hnl
+      have hnl' : keyLt x.1 y.1 = false := by simpa using hnl
+      unfold KeySorted
+      rw [List.pairwise_cons]
+      refine ⟨?_, insertByKey_sorted x ys h.2⟩
+      intro b hb
+      have : b = x ∨ b ∈ ys := by
+        clear h hnl hnl'
+        induction ys with
+        | nil => simp [insertByKey] at hb; exact Or.inl hb
+        | cons z zs ih =>
+          simp only [insertByKey] at hb
+          split at hb
+          · rcases List.mem_cons.mp hb with rfl | hb'
+            · exact Or.inl rfl
+            · exact Or.inr hb'
+          · rcases List.mem_cons.mp hb with rfl | hb'
+            · exact Or.inr (by simp)
+            · rcases ih hb' with h | h
+              · exact Or.inl h
+              · exact Or.inr (List.mem_cons_of_mem _ h)
+      rcases this with rfl | hb'
+      · exact hnl'
+      · exact h.1 b hb'
+
+/-- the keys of the emitted tags and fields are in code-point order (Python's `sorted`) -/
+theorem sortByKey_sorted {α} : ∀ (l : List (List Char × α)), KeySorted (sortByKey l)
+  | [] => by simp [sortByKey, KeySorted]
+  | x :: xs => by simp only [sortByKey]; exact insertByKey_sorted x _ (sortByKey_sorted xs)
+
 end Cobald.LP
